@@ -51,8 +51,9 @@ def _cps(s: str):
 
 
 # ------------------------------------------------------------------------------------------- real-code adaptors
-class _Skip(Exception):
-    pass
+class _Skip(BaseException):
+    """case outside the model's parameters (huge numbers, codec trouble); BaseException so that the library's
+    own `except Exception` handlers do not turn it into a result"""
 
 
 class _LzmaProxy:
@@ -67,17 +68,18 @@ class _LzmaProxy:
         log = self._log
 
         class D:
-            def decompress(self_inner, data):
+            def decompress(self_inner, data, max_length=-1):
                 if format == lzma.FORMAT_ALONE:
                     kind, dct = "alone", None
                 else:
                     kind, dct = "raw", (filters[0].get("dict_size") if filters else None)
+                mx = None if max_length is None or max_length < 0 else int(max_length)
                 try:
-                    out = lzma.LZMADecompressor(format=format, filters=filters).decompress(data)
-                    log.append({"kind": kind, "dict": dct, "in": list(data), "out": list(out)})
+                    out = lzma.LZMADecompressor(format=format, filters=filters).decompress(data, max_length)
+                    log.append({"kind": kind, "dict": dct, "in": list(data), "max": mx, "out": list(out)})
                     return out
                 except lzma.LZMAError:
-                    log.append({"kind": kind, "dict": dct, "in": list(data), "out": None})
+                    log.append({"kind": kind, "dict": dct, "in": list(data), "max": mx, "out": None})
                     raise
                 except Exception as e:  # MemoryError etc.: outside the model's codec parameter
                     raise _Skip(f"codec:{type(e).__name__}")
@@ -85,8 +87,8 @@ class _LzmaProxy:
 
 
 @contextlib.contextmanager
-def _instrumented():
-    """patch sevenzip.py: lzma proxy, number screening, filesystem capture"""
+def _instrumented(fs=True):
+    """patch sevenzip.py: lzma proxy, number screening, `_decompress_folder` recording and (fs=True) filesystem capture"""
     from sharepoint2text.parsing.extractors.util import sevenzip as sz
     log, writes, calls = [], [], []
     saved = {k: getattr(sz, k) for k in ("lzma", "_safe_join", "_mkdirs")}
@@ -100,9 +102,11 @@ def _instrumented():
             raise _Skip("huge-number")
         return v
 
-    def decompress_folder(self, folder, pack_pos, pack_sizes, source_file=None):
-        calls.append((next((i for i, f in enumerate(self._folders) if f is folder), -1), pack_pos, list(pack_sizes)))
-        return orig_dec(self, folder, pack_pos, pack_sizes, source_file=source_file)
+    def decompress_folder(self, folder, pack_pos, pack_sizes, *args, **kwargs):
+        # recorded as (folder index, pack position, pack sizes, max_output); everything is passed through untouched
+        max_output = kwargs.get("max_output", args[1] if len(args) > 1 else None)
+        calls.append((next((i for i, f in enumerate(self._folders) if f is folder), -1), pack_pos, list(pack_sizes), max_output))
+        return orig_dec(self, folder, pack_pos, pack_sizes, *args, **kwargs)
 
     class _F:
         def __init__(self, path):
@@ -119,9 +123,10 @@ def _instrumented():
             self.buf += bytes(b)
 
     sz.lzma = _LzmaProxy(log)
-    sz._safe_join = lambda base, rel: rel
-    sz._mkdirs = lambda p: None
-    sz.open = lambda path, mode="r": _F(path)
+    if fs:
+        sz._safe_join = lambda base, rel: rel
+        sz._mkdirs = lambda p: None
+        sz.open = lambda path, mode="r": _F(path)
     sz.SevenZipReader._read_number = read_number
     sz.SevenZipReader._decompress_folder = decompress_folder
     try:
@@ -129,19 +134,24 @@ def _instrumented():
     finally:
         for k, v in saved.items():
             setattr(sz, k, v)
-        if not had_open:
+        if fs and not had_open:
             del sz.open
         sz.SevenZipReader._read_number = orig_num
         sz.SevenZipReader._decompress_folder = orig_dec
 
 
 def _err_class(e):
-    from sharepoint2text.parsing.extractors.util.sevenzip import Bad7zFile
-    return "bad7z" if isinstance(e, Bad7zFile) else "other"
+    from sharepoint2text.parsing.extractors.util import sevenzip as sz
+    enc = getattr(sz, "Encrypted7zFile", None)
+    if enc is not None and isinstance(e, enc):
+        return "encrypted7z"
+    return "bad7z" if isinstance(e, sz.Bad7zFile) else "other"
 
 
-def _real_sevenzip(data: bytes, tmp: str):
-    """-> (outcome dict comparable with op c10.sevenzip, codec log) or raises _Skip"""
+def _real_sevenzip(data: bytes, tmp: str, pick=None):
+    """-> (outcome dict comparable with op c10.sevenzip, codec log, wanted) or raises _Skip.
+    pick: None = extractall(members=None); else a function number_of_entries -> list of indices; the members
+    handed to extractall are those entries of list() (an index past the end stands for a foreign FileInfo)"""
     from sharepoint2text.parsing.extractors.util.sevenzip import SevenZipReader
     with _instrumented() as (log, writes, calls):
         try:
@@ -149,7 +159,7 @@ def _real_sevenzip(data: bytes, tmp: str):
         except _Skip:
             raise
         except Exception as e:
-            return {"err": _err_class(e)}, log
+            return {"err": _err_class(e)}, log, None
         n_parse_calls = len(calls)
         out = {
             "r": {
@@ -164,15 +174,23 @@ def _real_sevenzip(data: bytes, tmp: str):
             },
             "pw": bool(r.needs_password()),
         }
+        wanted = None
+        kw = {}
+        if pick is not None:
+            from sharepoint2text.parsing.extractors.util.sevenzip import FileInfo
+            listed = r.list()
+            wanted = pick(len(listed))
+            kw["members"] = [listed[i] if i < len(listed) else FileInfo(filename="foreign", uncompressed=1, is_directory=False)
+                             for i in wanted]
         try:
-            r.extractall(tmp, source_file=io.BytesIO(data))
+            r.extractall(tmp, source_file=io.BytesIO(data), **kw)
             out["writes"] = [[_cps(p), list(b)] for p, b in writes]
         except _Skip:
             raise
         except Exception as e:
             out["xerr"] = _err_class(e)
-        out["plan"] = [[k, pos, sizes] for (k, pos, sizes) in calls[n_parse_calls:]]
-        return out, log
+        out["plan"] = [[k, pos, sizes, mx] for (k, pos, sizes, mx) in calls[n_parse_calls:]]
+        return out, log, wanted
 
 
 def _canon(res) -> str:
@@ -267,7 +285,8 @@ def _nested_archive(ext, tag):
         return b.getvalue()
     if ext == "7z":
         return W.build_7z(inner)
-    comp = {"tar": "", "tar.gz": "gz", "tgz": "gz", "tar.bz2": "bz2", "tbz2": "bz2", "tar.xz": "xz", "txz": "xz"}[ext]
+    comp = {"tar": "", "tar.gz": "gz", "tgz": "gz", "tar.bz2": "bz2", "tbz2": "bz2", "tar.xz": "xz", "txz": "xz",
+            "gz": "gz", "bz2": "bz2", "xz": "xz"}[ext]   # bare .gz/.bz2/.xz: the router hands them to read_archive too
     b = io.BytesIO()
     with tarfile.open(fileobj=b, mode="w:" + comp if comp else "w") as t:
         ti = tarfile.TarInfo(inner[0][0])
@@ -314,7 +333,7 @@ def _members(rng, n, ap, small=True, corrupt=True):
         elif roll < 0.36:
             add(f"{pre}{stem}", "file", b"no extension")
         elif roll < 0.42:
-            ext = rng.choice(["zip", "tar.gz", "7z", "tgz", "TAR", "tar.bz2", "tbz2", "tar.xz", "txz"])
+            ext = rng.choice(["zip", "tar.gz", "7z", "tgz", "TAR", "tar.bz2", "tbz2", "tar.xz", "txz", "gz", "bz2", "xz"])
             add(f"{pre}{stem}.{ext}", "file", _nested_archive(ext.lower(), f"inner{i}"))  # nested archive (a real one)
         else:
             ext, data = _doc(rng, f"m{i}", small)
@@ -459,6 +478,12 @@ def _seven_cases(ctx):
         if len(spec["groups"]) and max(spec["groups"]) > 1:
             sk = rng.choice(["zero-last", "overflow", "short"])
             cases.append(("skewed-" + sk, W.build_7z(ms, spec["groups"], spec["coders"], skew=sk, **spec["opts"]), None))
+    # declared file count against the bytes that remain in the header (count - 1, count, count + 1 bytes left)
+    for n in (2, 3, 5, 9, 40, 300):
+        for m in (n - 1, n, n + 1):
+            hdr = bytes([W.K_HEADER, W.K_FILES]) + W.number(n) + b"\x00" * m
+            start = struct.pack("<QQI", 0, len(hdr), zlib.crc32(hdr))
+            cases.append(("count-edge", W.MAGIC + b"\x00\x04" + struct.pack("<I", zlib.crc32(start)) + start + hdr, None))
     res = _resource("archives/test_archive.7z")
     if res:
         cases.append(("fixture", res, None))
@@ -474,22 +499,47 @@ def _corr_sevenzip(ctx, broken, tmp):
         if len(data) > 6000:
             ctx.count("7z/skipped-large")
             continue
-        try:
-            real, log = _real_sevenzip(data, tmp)
-        except _Skip as e:
-            ctx.count(f"7z/skipped-{e}")
-            continue
-        reqs.append({"op": "c10.sevenzip", "file": list(data), "codec": log})
-        reals.append(real)
-        kept.append((tag, data, meta))
+        # once with members=None, once with a random subset of the listed entries as `members`
+        for mode in ("all", "subset"):
+            pick = None
+            if mode == "subset":
+                if tag.startswith("mutated-fixture"):
+                    continue
+                seed = ctx.rng.random()
+
+                def pick(n, seed=seed):
+                    import random as _r
+                    rr = _r.Random(seed)
+                    idx = [i for i in range(n) if rr.random() < 0.55]
+                    rr.shuffle(idx)
+                    if rr.random() < 0.15:
+                        idx.append(n + 7)          # a FileInfo that is not one of list()
+                    if idx and rr.random() < 0.1:
+                        idx.append(idx[0])         # the same entry twice
+                    return idx
+            try:
+                real, log, wanted = _real_sevenzip(data, tmp, pick)
+            except _Skip as e:
+                ctx.count(f"7z/skipped-{e}")
+                continue
+            if mode == "subset" and wanted is None:
+                continue                           # header did not parse: nothing to select from
+            reqs.append({"op": "c10.sevenzip", "file": list(data), "codec": log, "wanted": wanted})
+            reals.append(real)
+            kept.append((tag + ("" if mode == "all" else "#members"), data, meta))
     outs = ctx.drive(reqs)
     bad = 0
     for (tag, data, meta), real, o in zip(kept, reals, outs):
         nontriv = "r" in real and any(f["u"] for f in real["r"]["files"])
-        ctx.case(("7z", data), nontrivial=nontriv or tag.startswith("mut"))
+        sub = tag.endswith("#members")
+        ctx.case(("7z", data, sub), nontrivial=nontriv or tag.startswith("mut"))
         outcome = "parse-" + real["err"] if "err" in real else ("extract-" + real["xerr"] if "xerr" in real else "ok")
-        ctx.count(f"7z/{tag.split('/')[0]}/{outcome}")
-        if tag.startswith("valid"):
+        ctx.count(f"7z/{tag.split('/')[0].split('#')[0]}{'#members' if sub else ''}/{outcome}")
+        if sub and "plan" in real:
+            n_fold = len(real["r"]["f2f"])
+            ctx.count("7z#members/folders-decoded=" + ("all" if len(real["plan"]) == n_fold else "some" if real["plan"] else "none")
+                      + ("/capped" if any(c[3] is not None and c[3] < sum(real["r"]["folders"][c[0]]["u"][-1:]) for c in real["plan"]) else ""))
+        if tag.startswith("valid") and not sub:
             ctx.count("7z-layout/" + tag[6:])
         if "xerr" in real and "plan" in o and "plan" in real:
             o["plan"] = o["plan"][: len(real["plan"])]   # the real loop stops at the folder that failed
@@ -639,7 +689,15 @@ def _names_exts(members, ap):
             sup = bool(is_supported_file(base))
         except Exception:
             sup = False
-        names[base] = {"base": _cps(base), "lower": _cps(base.lower()), "sup": sup}
+        back = False
+        if sup:
+            try:
+                from sharepoint2text.parsing.extractors.archive_extractor import read_archive as _ra
+                from sharepoint2text.parsing.router import get_extractor
+                back = get_extractor(base) is _ra
+            except Exception:
+                back = False
+        names[base] = {"base": _cps(base), "lower": _cps(base.lower()), "sup": sup, "back": back}
         res, raised = _alone(n, d, ap)
         label = f"{ap}!/{n}" if ap else n
         alone[label] = res
@@ -682,16 +740,7 @@ def _loop_request(fmt, data, members, ap, sub=None):
                 ms.append(m)
         rq.update(op="c10.tar", members=ms, head=list(data[:600]), comp=sub or "")
     else:
-        from sharepoint2text.parsing.extractors.util.sevenzip import SevenZipReader
-        with _instrumented() as (log, writes, calls):
-            try:
-                r = SevenZipReader(io.BytesIO(data))
-                r.extractall("/tmp", source_file=io.BytesIO(data))
-            except _Skip:
-                raise
-            except Exception:
-                pass
-        rq.update(op="c10.seven", file=list(data), codec=log)
+        rq.update(op="c10.seven", file=list(data), codec=[])   # codec answers are recorded from the real run by the caller
     return rq, alone
 
 
@@ -714,7 +763,16 @@ def _corr_loops(ctx, broken):
         except _Skip as e:
             ctx.count(f"loop/skipped-{e}")
             continue
-        got, term = _read_archive(data, ap)
+        if fmt == "7z":
+            try:   # record what the decoder answered to exactly the calls the real read_archive made
+                with _instrumented(fs=False) as (log, _w, _c):
+                    got, term = _read_archive(data, ap)
+            except _Skip as e:
+                ctx.count(f"loop/skipped-{e}")
+                continue
+            rq["codec"] = log
+        else:
+            got, term = _read_archive(data, ap)
         reqs.append(rq)
         metas.append((fmt, sub, tag, data, ap, members, spec, alone, got, term))
     outs = ctx.drive(reqs)
@@ -784,7 +842,7 @@ def _visible_supported(name: str) -> bool:
     if base.startswith(".") or name.startswith("__MACOSX/"):
         return False
     low = base.lower()
-    if low.endswith((".zip", ".tar", ".tar.gz", ".tgz", ".tar.bz2", ".tbz2", ".tar.xz", ".txz", ".7z")):
+    if low.endswith((".zip", ".tar", ".tar.gz", ".tgz", ".tar.bz2", ".tbz2", ".tar.xz", ".txz", ".7z", ".gz", ".bz2", ".xz")):
         return False   # archives inside archives are not unpacked (C09/C11)
     try:
         return bool(is_supported_file(base))
